@@ -112,6 +112,18 @@ pub fn apply_op<T: Subj>(s: &mut T, st: &Step, r: &Res) -> String {
             }
             Err(e) => format!("Err({:?})", e),
         },
+        Kind::FromSlice => {
+            let w = (st.a % 6) as u8;
+            let wb = uint_bits(w);
+            let vals: Vec<u128> = r.items.chunks(wb).map(|c| c.iter().enumerate().fold(0u128, |acc, (i, b)| acc | ((*b as u128) << i))).collect();
+            match T::from_slice(w, &vals) {
+                Ok(v) => {
+                    *s = v;
+                    "Ok".into()
+                }
+                Err(e) => format!("Err({:?})", e),
+            }
+        }
         Kind::Binop => {
             s.binop((st.a % 8) as u8, st.form % 4, r.rhs.as_ref().unwrap());
             String::new()
@@ -530,6 +542,18 @@ impl<'t> Exec<'t> {
                 r.text = digits.iter().rev().collect();
                 r.expect = Some(items);
             }
+            Kind::FromSlice => {
+                let wb = uint_bits((st.a % 6) as u8);
+                let mut items = st.items.clone();
+                let rm = room(0);
+                if items.len() > rm {
+                    items.truncate(rm);
+                }
+                let k = items.len() / wb * wb;
+                items.truncate(k);
+                r.want_len = Some(k);
+                r.items = items;
+            }
             Kind::FromUint => {
                 let w = (st.a % 6) as u8;
                 let val = uint_mask(w, st.wide);
@@ -713,9 +737,12 @@ impl<'t> Exec<'t> {
             }
             if c19_must_err(kind) {
                 let ok = matches!(&out_s, Ok(s) if s.starts_with("Err("));
+                if kind == Kind::FromBytes {
+                    self.evaluated("C13");
+                }
                 if !ok {
                     self.report(
-                        &["C19"],
+                        if kind == Kind::FromBytes { &["C19", "C13"] } else { &["C19"] },
                         "overflow-must-err",
                         h,
                         kname,
@@ -762,6 +789,10 @@ impl<'t> Exec<'t> {
                     self.evaluated("C18");
                     self.report(&["C18"], "grow.panic", h, kname, format!("growth edit {} on a growable vector panicked: {}", kname, out_s.as_ref().err().unwrap()));
                 }
+            }
+            if kind == Kind::FromBytes && !overflow {
+                self.evaluated("C13");
+                self.report(&["C13"], "from_bytes.panic", h, kname, format!("from_bytes of {} bytes within capacity panicked: {}", res.bytes.len(), out_s.as_ref().err().unwrap()));
             }
             if is_perturb(kind) {
                 let props: &[&'static str] = match kind {
